@@ -19,12 +19,17 @@ compile and the proof obligation breaks):
                match s { pat => block | tail, ... }   followed by more statements
                return e;      return self.f(args);   (f the function itself: recursion, on fuel)
                name!(...);                      logging / assertion macros: skipped
+               x = e;   self.f.g = e;   self.f.g += e;    rebindings (of a local, of a nested field)
+               if c { block }                   (no else, followed by more statements)
+               while c { block }                a loop: a function of its own, recursive on fuel
   tail         match s { pat => tail | block , ... }
-               if a == b { block } else { block }       a pure expression
+               if c { block } else { block }            a pure expression
+  conditions c a == b, a < b, a > b, a <= b, a >= b, x.is_empty(), !c
   scrutinee s  e | e? | self.f.take()
   patterns     _  [mut] x  0  None  Some(p)  Path::Ctor(p, ..)  Path::Ctor  (p, q)  p | q (no bindings)
   expressions  integer literals, (), variables, x.f, self.f, e as T (casts are dropped: see below),
-               &e, &mut e, *e, (a, b), Ctor(args), Path::Ctor(args), Path {}, Vec::new(),
+               &e, &mut e, *e, x[..n], x[n..], (a, b), Path { f: e, g } (a struct value), f: [move] |x| { .. }
+               in a struct literal (a closure value: only its captures are kept), Ctor(args), Path::Ctor(args), Path {}, Vec::new(),
                Vec::with_capacity(e), std::cmp::min(a, b), XSnafu.fail(), e.len(), a.cmp(&b), e.clone(),
                T::new(args) (the associated function of the type parameter: the section variable
                t_new), recv.m(args) for the methods named in the group's "calls" table (a call of
@@ -47,8 +52,10 @@ Semantics given to it (the trusted part of this translator):
     continues with v; `return e` ends the function with e;
   * external functions and T::new are uninterpreted: the theorems about the translation state
     what they assume of them as hypotheses;
-  * a self-recursive `return self.f(args)` is a call on one unit less of fuel (the theorems
-    state how much fuel is enough);
+  * a self-recursive `return self.f(args)` is a call on one unit less of fuel, and a `while` loop
+    is a separate recursive function taking one unit of fuel per round, whose parameters are the
+    variables in scope and whose exit branch is what follows the loop (the theorems state how much
+    fuel is enough; with too little the result is VStuck);
   * `as usize` / `as u64` casts are dropped (u64 -> usize is the identity on the 64-bit targets the
     crate is built for here); Vec::with_capacity(n) is the empty vector (capacity is not
     observable); `.clone()` and `&` / `*` are the identity on values.
@@ -176,13 +183,27 @@ class Parser:
                 self.eat(";")
                 stmts.append(("setself", e))
                 continue
-            # self.f = e;
-            if tok == "self" and self.peek(1) == "." and self.peek(3) == "=":
-                self.eat(); self.eat(); f = self.eat(); self.eat("=")
-                e = self.expr()
-                self.eat(";")
-                stmts.append(("setfield", f, e))
-                continue
+            # self.f = e;   self.f.g = e;   self.f.g += e;
+            if tok == "self" and self.peek(1) == ".":
+                j, path = self.i + 1, []
+                while self.peek(j - self.i) == "." and re.match(r"[a-z_][a-z0-9_]*$", self.peek(j - self.i + 1) or "") and self.peek(j - self.i + 2) != "(":
+                    path.append(self.peek(j - self.i + 1))
+                    j += 2
+                nxt, nxt2 = self.peek(j - self.i), self.peek(j - self.i + 1)
+                if path and (nxt == "=" or (nxt == "+" and nxt2 == "=")):
+                    self.i = j
+                    plus = self.eat() == "+"
+                    if plus:
+                        self.eat("=")
+                    e = self.expr()
+                    self.eat(";")
+                    if plus:
+                        cur = ("var", "self")
+                        for f in path:
+                            cur = ("field", cur, f)
+                        e = ("add", cur, e)
+                    stmts.append(("setpath", path, e))
+                    continue
             # x.append(&mut y);
             if self.peek(1) == "." and self.peek(2) == "append" and self.peek(3) == "(":
                 x = self.eat(); self.eat("."); self.eat("append"); self.eat("(")
@@ -190,6 +211,25 @@ class Parser:
                 y = self.eat()
                 self.eat(")"); self.eat(";")
                 stmts.append(("append", x, y))
+                continue
+            if tok == "while":
+                self.eat()
+                c = self.cond()
+                body = self.block()
+                stmts.append(("while", c, body))
+                continue
+            # x = e;   (a local rebinding)
+            if re.match(r"[a-z_][a-z0-9_]*$", tok) and tok not in ("self", "match", "if", "let", "return") and self.peek(1) == "=":
+                x = self.eat(); self.eat("=")
+                e = self.expr()
+                self.eat(";")
+                stmts.append(("assign", x, e))
+                continue
+            if tok == "if" and self.peek(1) != "let" and self.if_is_statement():
+                self.eat()
+                c = self.cond()
+                body = self.block()
+                stmts.append(("ifstmt", c, body))
                 continue
             if tok == "if" and self.peek(1) == "let":
                 self.eat(); self.eat()
@@ -221,6 +261,38 @@ class Parser:
             self.eat("}")
             return ("block", stmts, ("value", e))
 
+    def if_is_statement(self):
+        """an `if c { .. }` without else that is followed by more of the block"""
+        j, depth = self.i, 0
+        while j < len(self.t):
+            if self.t[j] == "{":
+                break
+            j += 1
+        depth = 0
+        while j < len(self.t):
+            if self.t[j] == "{":
+                depth += 1
+            elif self.t[j] == "}":
+                depth -= 1
+                if depth == 0:
+                    break
+            j += 1
+        return j + 1 < len(self.t) and self.t[j + 1] != "else"
+
+    def cond(self):
+        neg = False
+        if self.peek() == "!":
+            self.eat()
+            neg = True
+        a = self.postfix()
+        if self.peek() in (">", "<", ">=", "<=", "=="):
+            op = self.eat()
+            b = self.postfix()
+            c = ("cmp", op, a, b)
+        else:
+            c = ("boolexpr", a)
+        return ("not", c) if neg else c
+
     def match(self):
         self.eat("match")
         scrut = self.scrutinee()
@@ -244,13 +316,11 @@ class Parser:
             return self.match()
         if self.peek() == "if":
             self.eat()
-            a = self.postfix()
-            self.eat("==")
-            b = self.postfix()
+            c = self.cond()
             th = self.block()
             self.eat("else")
             el = self.block()
-            return ("ifeq", a, b, th, el)
+            return ("ifc", c, th, el)
         return ("value", self.expr())
 
     def scrutinee(self):
@@ -317,6 +387,12 @@ class Parser:
         self.eat("(")
         out = []
         while self.peek() != ")":
+            if self.peek() == "||":
+                self.eat()
+                out.append(("closure", ("wild",), self.expr()))
+                if self.peek() == ",":
+                    self.eat()
+                continue
             if self.peek() == "|":
                 # a closure |pat| expr (only as the argument of map_err)
                 self.eat()
@@ -335,11 +411,11 @@ class Parser:
     def postfix(self):
         e = self.atom()
         while True:
-            if self.peek() == "." and self.peek(2) == "(":
+            if self.peek() == "." and self.peek(1) != "." and self.peek(2) == "(":
                 self.eat()
                 m = self.eat()
                 e = ("method", e, m, self.args())
-            elif self.peek() == ".":
+            elif self.peek() == "." and self.peek(1) != ".":
                 self.eat()
                 e = ("field", e, self.eat())
             elif self.peek() == "as":
@@ -350,8 +426,47 @@ class Parser:
             elif self.peek() == "?":
                 self.eat()
                 e = ("try", e)
+            elif self.peek() == "[":
+                # x[..n]  /  x[n..]
+                self.eat()
+                if self.peek() == "." and self.peek(1) == ".":
+                    self.eat(); self.eat()
+                    n = self.expr()
+                    self.eat("]")
+                    e = ("slice_to", e, n)
+                else:
+                    n = self.expr()
+                    self.eat("."); self.eat(".")
+                    self.eat("]")
+                    e = ("slice_from", e, n)
             else:
                 return e
+
+    def closure_value(self):
+        """[move] |x| body, as a value: only the names it mentions are kept (those bound outside are its captures)"""
+        if self.peek() == "move":
+            self.eat()
+        self.eat("|")
+        bound = []
+        while self.peek() != "|":
+            bound.append(self.eat())
+        self.eat("|")
+        names = []
+        if self.peek() == "{":
+            depth = 0
+            while True:
+                tok = self.eat()
+                if tok == "{":
+                    depth += 1
+                elif tok == "}":
+                    depth -= 1
+                    if depth == 0:
+                        break
+                elif re.match(r"[a-z_]\w*$", tok) and tok not in bound and tok not in names:
+                    names.append(tok)
+        else:
+            raise Fail("closure value without a block body")
+        return ("closureval", names)
 
     def atom(self):
         tok = self.peek()
@@ -374,16 +489,40 @@ class Parser:
                 if self.peek() != ")":
                     items.append(self.expr())
             self.eat(")")
+            if len(items) == 1 and self.peek() == "(":
+                # (self.f)(args): a call of the closure a field holds
+                return ("callval", items[0], self.args())
             return items[0] if len(items) == 1 else ("ctor", "tuple", items)
         if re.match(r"\d", tok):
             self.eat()
             return ("num", int(tok.replace("_", "")))
+        if tok in ("true", "false"):
+            self.eat()
+            return ("ctor", tok, [])
         p = self.path()
         if self.peek() == "(":
             return ("call", p, self.args())
         if self.peek() == "{" and self.peek(1) == "}" and p[0].isupper():
             self.eat(); self.eat()
             return ("ctor", p, [])
+        if self.peek() == "{" and p[0].isupper() and re.match(r"[a-z_]\w*$", self.peek(1) or "") and self.peek(2) in (":", ",", "}"):
+            # a struct literal  Path { f: e, g, .. }
+            self.eat()
+            fields = []
+            while self.peek() != "}":
+                f = self.eat()
+                if self.peek() == ":":
+                    self.eat()
+                    if self.peek() in ("move", "|"):
+                        fields.append((f, self.closure_value()))
+                    else:
+                        fields.append((f, self.expr()))
+                else:
+                    fields.append((f, ("var", f)))
+                if self.peek() == ",":
+                    self.eat()
+            self.eat("}")
+            return ("struct", p, fields)
         if "::" in p or p[0].isupper():
             return ("ctor", p, [])
         return ("var", p)
@@ -412,6 +551,9 @@ class Gen:
         self.effects = [t for t in threaded if t != "self"]
         self.n = 0
         self.recursive = False
+        self.uses_fuel = False
+        self.loops = []
+        self.ty = " * ".join(["val"] * (len(threaded) + 1))
 
     def fresh(self, base):
         self.n += 1
@@ -427,6 +569,25 @@ class Gen:
             raise Fail("unbound variable %s" % x[1])
         if k == "field":
             return "(v_field %s %s)" % (cstr(x[2]), self.e(x[1], env))
+        if k == "struct":
+            return "(VR [%s])" % "; ".join("(%s, %s)" % (cstr(f), self.e(v, env)) for f, v in x[2])
+        if k == "closureval":
+            return "(VC \"closure\" [%s])" % "; ".join(env[n] for n in x[1] if n in env)
+        if k == "add":
+            return "(v_add %s %s)" % (self.e(x[1], env), self.e(x[2], env))
+        if k == "callval":
+            f = x[1]
+            name, cur = [], f
+            while cur[0] == "field":
+                name.insert(0, cur[2])
+                cur = cur[1]
+            if cur != ("var", "self"):
+                raise Fail("call of a value that is not a field of self")
+            return "(ext %s [%s])" % (cstr(".".join(name)), "; ".join([env["self"]] + [self.e(a, env) for a in x[2]]))
+        if k == "slice_to":
+            return "(v_take %s %s)" % (self.e(x[2], env), self.e(x[1], env))
+        if k == "slice_from":
+            return "(v_drop %s %s)" % (self.e(x[2], env), self.e(x[1], env))
         if k == "ctor":
             if x[1].isupper() and "::" not in x[1] and not x[2]:
                 return "(VN %d)" % const_value(self.src, x[1])
@@ -467,6 +628,39 @@ class Gen:
             return "(ext %s [%s])" % (cstr(m), "; ".join([self.e(recv, env)] + [self.e(a, env) for a in args]))
         raise Fail("expression %r" % (x,))
 
+    def cond(self, c, env):
+        if c[0] == "not":
+            return "(negb %s)" % self.cond(c[1], env)
+        if c[0] == "cmp":
+            op, a, b = c[1], self.e(c[2], env), self.e(c[3], env)
+            return {"==": "(v_eqb %s %s)" % (a, b), "<": "(v_ltb %s %s)" % (a, b), ">": "(v_ltb %s %s)" % (b, a),
+                    "<=": "(negb (v_ltb %s %s))" % (b, a), ">=": "(negb (v_ltb %s %s))" % (a, b)}[op]
+        x = c[1]
+        if x[0] == "method" and x[2] == "is_empty" and not x[3]:
+            return "(v_is_empty %s)" % self.e(x[1], env)
+        if x[0] in ("field", "var"):
+            return "(v_is_true %s)" % self.e(x, env)
+        raise Fail("condition %r" % (c,))
+
+    def assigned(self, b):
+        """local variables a block rebinds (x = e; x.append(..))"""
+        out = []
+        for st in b[1]:
+            if st[0] in ("assign", "append") and st[1] not in out:
+                out.append(st[1])
+            if st[0] in ("ifstmt", "while"):
+                out += [v for v in self.assigned(st[2]) if v not in out]
+        return out
+
+    def stateful_recv(self, recv):
+        """self.<..>.<f> with f one of the group's stateful fields"""
+        if recv[0] != "field" or recv[2] not in self.chans:
+            return False
+        cur = recv[1]
+        while cur[0] == "field":
+            cur = cur[1]
+        return cur == ("var", "self")
+
     def effectful(self, x):
         """does evaluating x change self (a call of a translated &mut self function, an operation on a
         channel end of self), or return early (`?`)?"""
@@ -477,9 +671,9 @@ class Gen:
             recv, m, args = x[1], x[2], x[3]
             if recv == ("var", "self") and m in self.calls and self.calls[m] in self.mutcalls:
                 return True
-            if recv[0] == "field" and recv[1] == ("var", "self") and recv[2] in self.chans:
+            if self.stateful_recv(recv):
                 return True
-            if m == "map_err":
+            if m in ("map_err", "unwrap_or_else"):
                 return True
             return self.effectful(recv) or any(self.effectful(a) for a in args if a[0] != "closure")
         if k in ("call", "ctor"):
@@ -522,7 +716,16 @@ class Gen:
                 env2 = dict(env)
                 env2["self"] = n
                 return "let '(%s, %s) := %s %s in\n%s" % (n, v, self.calls[m], " ".join([env["self"]] + [self.e(a, env) for a in args]), k(env2, v))
-            if recv[0] == "field" and recv[1] == ("var", "self") and recv[2] in self.chans:
+            if m == "unwrap_or_else" and len(args) == 1 and args[0][0] == "closure":
+                _, cpat, cbody = args[0]
+
+                def after(env2, v):
+                    r, sv = self.fresh("opt"), self.fresh("somev")
+                    # Some(v) yields v; on None the closure runs
+                    return ("let %s := %s in\nmatch %s with\n| VC \"Some\" [%s] =>\n%s\n| VC \"None\" [] =>\n%s\n| _ => %s\nend" % (
+                        r, v, r, sv, k(env2, sv), self.ev(cbody, env2, k), self.stuck(env2)))
+                return self.ev(recv, env, after)
+            if self.stateful_recv(recv):
                 if "self" not in self.threaded:
                     raise Fail("channel operation in a function that does not take &mut self")
                 if any(self.effectful(a) for a in args):
@@ -577,13 +780,24 @@ class Gen:
             env["self"] = n
             return code + cont(env)
         if kind == "setfield":
+            s = ("setpath", [s[1]], s[2])
+            kind = "setpath"
+        if kind == "setpath":
             if "self" not in self.threaded:
-                raise Fail("assignment to self.%s in a function that does not take &mut self" % s[1])
-            n = self.fresh("self")
-            env = dict(env)
-            code = "let %s := v_set %s %s %s in\n" % (n, cstr(s[1]), self.e(s[2], env), env["self"])
-            env["self"] = n
-            return code + cont(env)
+                raise Fail("assignment to a field of self in a function that does not take &mut self")
+            path = s[1]
+
+            def store(env2, val):
+                def build(obj, fields):
+                    if len(fields) == 1:
+                        return "(v_set %s %s %s)" % (cstr(fields[0]), val, obj)
+                    return "(v_set %s %s %s)" % (cstr(fields[0]), build("(v_field %s %s)" % (cstr(fields[0]), obj), fields[1:]), obj)
+                n = self.fresh("self")
+                env3 = dict(env2)
+                code = "let %s := %s in\n" % (n, build(env2["self"], path))
+                env3["self"] = n
+                return code + cont(env3)
+            return self.ev(s[2], env, store)
         if kind == "append":
             n = self.fresh(s[1])
             env = dict(env)
@@ -602,6 +816,34 @@ class Gen:
             if self.effectful(ex):
                 return self.ev(ex, env, lambda env2, _v: cont(env2))
             raise Fail("expression statement %r" % (ex,))
+        if kind == "assign":
+            n = self.fresh(s[1])
+            env = dict(env)
+            code = "let %s := %s in\n" % (n, self.e(s[2], env))
+            env[s[1]] = n
+            return code + cont(env)
+        if kind == "ifstmt":
+            _, c, body = s
+            return "(if %s then\n%s\nelse\n%s)" % (self.cond(c, env), self.block(body, env, lambda env2, _v: cont(env2)), cont(env))
+        if kind == "while":
+            # a loop is a function of its own, recursive on fuel, of every variable in scope: those the
+            # body rebinds (and the threaded ones) change from one round to the next; what follows the
+            # loop is the else-branch of its test
+            _, c, body = s
+            self.uses_fuel = True
+            lname = "%s_loop%d" % (self.cname, len(self.loops) + 1)
+            names = sorted(env.keys(), key=lambda v: (v != "self", v))
+            params = {v: "%s_l" % v.replace("'", "") for v in names}
+            inner = dict(params)
+
+            def again(env2, _v):
+                return "(%s fuel_ %s)" % (lname, " ".join(env2[v] for v in names))
+            body_code = self.block(body, inner, again)
+            rest_code = cont(inner)
+            self.loops.append("Fixpoint %s (fuel : nat) %s{struct fuel} : %s :=\nmatch fuel with\n| O => %s\n| S fuel_ =>\n(if %s then\n%s\nelse\n%s)\nend." % (
+                lname, "".join("(%s : val) " % inner[v] for v in names), self.ty, self.ret("VStuck", inner),
+                self.cond(c, inner), body_code, rest_code))
+            return "(%s fuel %s)" % (lname, " ".join(env[v] for v in names))
         if kind == "iflet":
             _, pat, ex, body = s
             v, r = self.fresh("v"), self.fresh("rest")
@@ -614,8 +856,8 @@ class Gen:
     def tail(self, t, env, k):
         if t[0] == "value":
             return self.ev(t[1], env, k)
-        if t[0] == "ifeq":
-            return "(if v_eqb %s %s then\n%s\nelse\n%s)" % (self.e(t[1], env), self.e(t[2], env), self.block(t[3], env, k), self.block(t[4], env, k))
+        if t[0] == "ifc":
+            return "(if %s then\n%s\nelse\n%s)" % (self.cond(t[1], env), self.block(t[2], env, k), self.block(t[3], env, k))
         if t[0] == "match":
             return self.match(t, env, k)
         raise Fail("tail %r" % (t,))
@@ -689,15 +931,20 @@ def translate(src, name, calls, effects, chans=(), mutcalls=None):
     ty = " * ".join(["val"] * (len(threaded) + 1))
     ps = "".join("(%s : val) " % x for x in params)
     if g.recursive:
+        if g.loops:
+            raise Fail("a loop in a self-recursive function")
         return ("Fixpoint %s (fuel : nat) %s{struct fuel} : %s :=\nmatch fuel with\n| O => %s\n| S fuel_ =>\n%s\nend." % (
             cname, ps, ty, g.ret("VStuck", env), text))
-    return "Definition %s %s: %s :=\n%s." % (cname, ps, ty, text)
+    if g.uses_fuel:
+        ps = "(fuel : nat) " + ps
+    return "\n\n".join(g.loops + ["Definition %s %s: %s :=\n%s." % (cname, ps, ty, text)])
 
 
 HEADER = '''(* GENERATED on every run by tools/rs2sm.py from %s - do not edit.
    The subset of Rust it accepts and the meaning it gives to it are stated in that file. *)
 From Coq Require Import String.
 From Amq Require Import Lib.Base Lib.RsVal.
+Open Scope string_scope.
 Open Scope N_scope.
 
 Section Gen.
